@@ -16,6 +16,8 @@ mod metrics;
 pub use background::{BACKGROUND_QUEUE_METRICS, describe_sink_metrics};
 #[cfg(feature = "background-queue")]
 pub use background::{BackgroundQueue, BackgroundQueueBuilder, BackgroundQueueJoinHandle};
+#[cfg(all(metrique_verif, feature = "background-queue"))]
+pub use background::verif as background_verif;
 pub use immediate_flush::{
     AnyFlushImmediately, FlushImmediately, FlushImmediatelyBuilder,
     describe_immediate_flush_metrics,
